@@ -60,3 +60,12 @@ package asa
 // uninterpreted function in the proofs): they must stay the reviewed ones.
 //vc:globalconst[C09] sameGroupRegex regexp.MustCompile "^WARNING: Same object-group is used more than once in one config line"
 //vc:globalconst[C09] cryptoMapIncompleteRegex regexp.MustCompile "WARNING: The crypto map entry (?:is|will be) incomplete!"
+
+// C06: setTerminal enters configuration mode ("configure terminal",
+// "terminal width 511", "end") when the terminal is narrower than 511
+// columns. That changes the running configuration, so setTerminal must be
+// called only after the device name was verified.
+//vc:func (*State).setTerminal
+//vc:  requires[C06] @nameVerifiedBeforeTerminalSetup nameChecked
+//vc:  requires[C11] @notInConfMode !confMode
+//vc:  ensures[C11] @leavesConfMode !confMode
